@@ -212,7 +212,22 @@ def roundtrip_case(draw):
         if draw(st.booleans()):
             pair.reverse()
         dts = (pair + dts) if draw(st.booleans()) else (dts + pair)
-    return {"dts": dts, "fmt": draw(st.sampled_from(["stream", "stream.gz", "json", "sqlite", "avro"]))}
+    fmt = draw(st.sampled_from(["stream", "stream.gz", "json", "sqlite", "avro"]))
+    if fmt in ("stream", "stream.gz", "json") and draw(st.integers(0, 3)) == 0:
+        # first / last hours of the calendar under an offset that puts the UTC instant outside years 1..9999: the
+        # value itself (wall time and offset) is a timestamp of year 1 / 9999 like any other and is stored as it is
+        for _ in range(draw(st.integers(1, 2))):
+            tz = draw(gen.tzinfos(naive=False))
+            wall = draw(st.sampled_from([(1, 1, 1, 0, 0, 0, 0), (1, 1, 1, 0, 10, 0, 5), (9999, 12, 31, 23, 59, 59, 999999),
+                                         (9999, 12, 31, 23, 50, 0, 0)]))
+            try:
+                d = _d.datetime(*wall, tzinfo=tz)
+                off = d.utcoffset()
+            except (OverflowError, ValueError):
+                continue
+            if off is not None and not off.microseconds:
+                dts.insert(draw(st.integers(0, len(dts))), d)
+    return {"dts": dts, "fmt": fmt}
 
 
 def check_roundtrip(case, ctx):
